@@ -125,6 +125,23 @@ def _cold_digest(args):
         return None
 
 
+def _regression_batch(args):
+    """Committed cases that once exposed a (now repaired) defect: re-executed on every run."""
+    prop_id, paths = args
+    out = []
+    for p in paths:
+        try:
+            with open(p) as f:
+                doc = json.load(f)
+            res = _PROP.execute(doc['case'])
+            for v in res['violations']:
+                out.append({'i': -1, 'seed': doc.get('seed', 0), 'v': v, 'case': doc['case'], 'digest': res['digest'],
+                            'regression': os.path.basename(p)})
+        except Exception:
+            out.append({'error': p, 'tb': traceback.format_exc()})
+    return out
+
+
 # ------------------------------------------------------------------ minimisation
 def minimise(prop, case, target, budget_s=60.0):
     """Greedy delta debugging: accept any candidate that still shows the same (monitor, signature)."""
@@ -164,6 +181,8 @@ def main(prop, argv=None):
     ap.add_argument('--first', type=int, default=0, help='first run index')
     ap.add_argument('--digest-dump', help='write {index: digest} for the determinism self-test')
     ap.add_argument('--keep-going', action='store_true')
+    ap.add_argument('--max-report', type=int, default=6)
+    ap.add_argument('--no-regressions', action='store_true')
     a = ap.parse_args(argv)
     if a.tier not in ('quick', 'thorough'):
         a.tier = 'quick'
@@ -228,7 +247,18 @@ def _explore(prop, a, t_start):
                              initargs=(counter,)) as ex:
         def submit(idxs):
             pending.add(ex.submit(_worker_batch, (prop.ID, a.seed, a.tier, idxs, True)))
+        reg_dir = os.path.join(VERIF, 'regressions', prop.ID)
+        reg_paths = sorted(os.path.join(reg_dir, f) for f in os.listdir(reg_dir) if f.endswith('.json')) \
+            if os.path.isdir(reg_dir) and not a.no_regressions else []
+        reg_futs = [ex.submit(_regression_batch, (prop.ID, reg_paths[j::8])) for j in range(8) if reg_paths[j::8]]
         try:
+            for fut in reg_futs:
+                for item in fut.result(timeout=700):
+                    if 'error' in item:
+                        agg['errors'].append({'i': -1, 'seed': 0, 'tb': item['tb']})
+                    else:
+                        agg['viol'].append(item)
+            agg['regressions_run'] = len(reg_paths)
             while True:
                 while idx < end and len(pending) < workers * 2 and time.time() - t_start < budget:
                     idxs = list(range(idx, min(end, idx + batch)))
@@ -294,7 +324,7 @@ def _explore(prop, a, t_start):
     for fid, (f, n) in sorted(known_hits.items()):
         print('KNOWN-FINDING: property=%s %s  [%s, matched %d times]' % (prop.ID, f['what'], fid, n))
     if harness_error is None:
-        for key, x in sorted(new.items(), key=lambda kv: kv[1]['i'])[:6]:
+        for key, x in sorted(new.items(), key=lambda kv: kv[1]['i'])[:a.max_report]:
             path = _report(prop, x, a)
             reported.append({'monitor': key[0], 'signature': key[1], 'replay': path, 'run_index': x['i']})
             print('VIOLATION property=%s replay=%s' % (prop.ID, path))
@@ -394,6 +424,7 @@ def _write_evidence(prop, a, agg, wall, n_new, known_hits, missing, reported):
         'probes': dict(sorted(agg['probes'].items())),
         'probes_stuck_at_zero': missing,
         'determinism_rechecked_runs': agg.get('recheck', 0),
+        'regression_cases_rerun': agg.get('regressions_run', 0),
         'runs_whose_outcome_depended_on_process_history': agg.get('history_dependent', 0),
         'components': prop.COMPONENTS,
         'known_findings_matched': {fid: n for fid, (f, n) in sorted(known_hits.items())},
